@@ -44,7 +44,7 @@ Apply ==
         \/ (l.k \in {"te", "ch"} /\ HasTerm(l.t) /\ ((r.k = "te" /\ l.k # "te") \/ (r.k = "lit" /\ r.t[2] = 1)) /\ mk("-", "ch"))
         \* the right-hand side chain
         \/ (l.k = "top" /\ r.k \in {"te", "lit", "neg1", "grp"} /\ mk("+", "top"))
-        \/ (l.k = "top" /\ HasTerm(l.t) /\ (r.k = "te" \/ (r.k = "lit" /\ r.t[2] = 1)) /\ mk("-", "top"))
+        \/ (l.k = "top" /\ HasTerm(l.t) /\ (r.k = "te" \/ r.k = "grp" \/ (r.k = "lit" /\ r.t[2] = 1)) /\ mk("-", "top"))
 Pow ==
   /\ Top.k = "te" /\ Budget + 1 <= MaxOps
   /\ \E m \in {2, 3} : st' = Append(SubSeq(st, 1, Len(st) - 1), E(<<"pow", Top.t, m>>, "te", Top.n + 1))
